@@ -31,7 +31,7 @@ def without_prefix_plain_extension(k: int) -> bool:
 
 def custom_table_prefix_and_extension(k: int, lo: int, hi: int) -> bool:
     """
-    pre: -8 <= k <= 8 and -4 <= lo < 0 and 0 < hi <= 4
+    pre: -5 <= k <= 5 and -2 <= lo < 0 and 0 < hi <= 2
     post: _
     """
     exp = 3 * k
